@@ -12,9 +12,11 @@ import (
 	"sync/atomic"
 	"time"
 
+	"github.com/iotaledger/hive.go/runtime/syncutils"
 	hive "github.com/iotaledger/hive.go/runtime/workerpool"
 
 	"verifharness/core"
+	"verifharness/sched"
 )
 
 // poolstress: free-running submitters / nested submits / Shutdown racing with them; one global event log.
@@ -44,6 +46,44 @@ func poolStress(args []string) int {
 	enc := json.NewEncoder(w)
 	rng := rand.New(rand.NewSource(*seed))
 	hangs := 0
+	// forced schedule (TLC counterexample of DispatcherWakeImpl variant signal_without_lock): the dispatcher is held
+	// between evaluating its wait condition and the condition wait while Shutdown runs; then it goes on
+	for _, workers := range []int{1, 2} {
+		gate := sched.NewGate()
+		syncutils.VerifHook = func(p string) { gate.Wait("hook:" + p) }
+		gate.Hold("hook:stack-poporwait-before-wait")
+		lg := &plog{}
+		p := hive.New("forced", hive.WithWorkerCount(workers))
+		p.Start()
+		sched.Quiesce(2 * time.Second) // the dispatcher is parked at the yield point (inside PopOrWait, queue empty)
+		done := make(chan struct{})
+		go func() {
+			defer close(done)
+			p.Shutdown()
+			p.ShutdownComplete.Wait()
+			lg.add(core.Ev{"op": "complete", "pending": p.PendingTasksCounter.Get()})
+		}()
+		sched.Quiesce(2 * time.Second)
+		gate.ReleaseAll()
+		finished := true
+		select {
+		case <-done:
+		case <-time.After(3 * time.Second):
+			finished = false
+			hangs++
+		}
+		syncutils.VerifHook = nil
+		_ = enc.Encode(core.Ev{"op": "reset", "cfg": core.Ev{"workers": workers, "cancel": false}})
+		lg.mu.Lock()
+		for _, e := range lg.evs {
+			_ = enc.Encode(e)
+		}
+		lg.mu.Unlock()
+		if !finished {
+			_ = enc.Encode(core.Ev{"op": "complete", "pending": 0}) // so that the final event is the one that is rejected
+		}
+		_ = enc.Encode(core.Ev{"op": "final", "finished": finished})
+	}
 	for tr := 0; tr < *traces; tr++ {
 		workers := 1 + rng.Intn(4)
 		cancel := rng.Intn(2) == 0
